@@ -65,6 +65,35 @@ Theorem C02_into_iter_fails_with_its_parser :
     sdrive toks spn run (S fuel) (IIntoIter a) ctx (SInto None) None [] [] p r = Some (None, r1).
 Proof. exact into_iter_fail. Qed.
 
+(* i.then(j) used as an iterable (collect / count / folds over it): i's items in order, then - from where i ended - a fresh j's;
+   i is never asked again once j has started; a failure of i is a failure of the whole *)
+Theorem C02_iterable_then_yields_first_then_second :
+  forall toks spn run i j ctx,
+    (forall sa p r v p1 e1 sa' r1, it_snext toks spn run i ctx sa p r = Some (SSome v p1 e1, sa', r1) ->
+       it_snext toks spn run (IThen i j) ctx (SThen sa None) p r = Some (SSome v p1 e1, SThen sa' None, r1)) /\
+    (forall sa p r p1 e1 sa' r1, it_snext toks spn run i ctx sa p r = Some (SNone p1 e1, sa', r1) ->
+       it_snext toks spn run (IThen i j) ctx (SThen sa None) p r =
+         match it_snext toks spn run j ctx (mk_iter j ctx) p1 r1 with
+         | Some (SSome v p2 e2, sb', r2) => Some (SSome v p2 (e1 ++ e2), SThen sa' (Some sb'), r2)
+         | Some (SNone p2 e2, sb', r2) => Some (SNone p2 (e1 ++ e2), SThen sa' (Some sb'), r2)
+         | Some (SErr, sb', r2) => Some (SErr, SThen sa' (Some sb'), r2)
+         | None => None
+         end) /\
+    (forall sa sb p r, it_snext toks spn run (IThen i j) ctx (SThen sa (Some sb)) p r =
+         match it_snext toks spn run j ctx sb p r with
+         | Some (x, sb', r') => Some (x, SThen sa (Some sb'), r')
+         | None => None
+         end) /\
+    (forall sa p r sa' r1, it_snext toks spn run i ctx sa p r = Some (SErr, sa', r1) ->
+       it_snext toks spn run (IThen i j) ctx (SThen sa None) p r = Some (SErr, SThen sa' None, r1)).
+Proof.
+  intros toks spn run i j ctx. split; [|split; [|split]].
+  - intros; now apply ithen_first.
+  - intros; now apply ithen_switch.
+  - intros; apply ithen_second.
+  - intros; now apply ithen_fails_with_first.
+Qed.
+
 (* non-vacuity, and what collect / count / foldl / foldr / collect_exactly see *)
 Example C02_example :
   let toks := [97; 44; 97; 44; 98]%N in
@@ -82,7 +111,10 @@ Example C02_example :
      = TRes (Some (Some (VList [VPair (VNat 0) (VTok 97%N); VPair (VNat 1) (VTok 97%N); VPair (VNat 2) (VTok 98%N)]))) []
   /\ run (Collect CVec (IEnum (IIntoIter (Collect CVec it))))
      = TRes (Some (Some (VList [VPair (VNat 0) (VTok 97%N); VPair (VNat 1) (VTok 97%N); VPair (VNat 2) (VTok 98%N)]))) []
-  /\ run_top no_quirks KRich toks (fun a b => (a, b)) 20 Check (CollectExactly 3 (IIntoIter (Collect CVec it))) = TRes (Some None) [].
+  /\ run_top no_quirks KRich toks (fun a b => (a, b)) 20 Check (CollectExactly 3 (IIntoIter (Collect CVec it))) = TRes (Some None) []
+  /\ run_top no_quirks KRich [97; 97; 98; 97]%N (fun a b => (a, b)) 20 Emit
+        (Collect CVec (IThen (IRep (Just [97%N]) 0 None) (IRep (Just [98%N]) 0 None)))
+      = TRes None [mkErr (3, 4) (REF [2; 201]%N (Some 97%N)) []].
 Proof. repeat split; vm_compute; reflexivity. Qed.
 
 (* at_least > at_most: the code (and hence the model) accepts at_most items: known finding F13 *)
@@ -99,3 +131,4 @@ Print Assumptions C02_configured_bounds.
 Print Assumptions C02_enumerate_indices.
 Print Assumptions C02_into_iter_items.
 Print Assumptions C02_into_iter_fails_with_its_parser.
+Print Assumptions C02_iterable_then_yields_first_then_second.
